@@ -983,6 +983,7 @@ def _inner_exprs():
         ("join", lambda: jbody(join("inner_join", [("DS_4", "d1"), ("DS_K", "d2")]), lambda j: keep(j, ["Me_1"]))),
         ("union", lambda: setop("union", ["DS_4", "DS_5"])),
         ("setdiff", lambda: setop("setdiff", ["DS_4", "DS_5"])),
+        ("symdiff", lambda: setop("symdiff", ["DS_4", "DS_5"])),
         ("filter", lambda: filter_("DS_4", gt0)),
         ("calc", lambda: calc("DS_4", [(None, "Me_1", binop("+", "Me_1", 1))])),
         ("rename2", lambda: rename(rename("DS_4", [("Me_1", "Me_7")]), [("Me_7", "Me_1")])),
@@ -1033,6 +1034,7 @@ def nested(tier):
     # expression) are represented by a few combinations only; combinations whose result is empty by construction are left out
     REP = {"analytic": ("plus_sc", "filter", "sum_by", "union", "join"), "if": ("plus_sc", "filter", "sum_by", "union", "join")}
     EMPTY = {("plus_ds", "setdiff"), ("ds_minus", "setdiff"), ("intersect", "setdiff")}
+    EMPTY |= set()
     for prop, oname, ob, rows in _outer_ops():
         for iname, ib in _inner_exprs():
             if iname in REP and oname not in REP[iname]:
